@@ -179,8 +179,10 @@ fn gen_val(r: &mut Rng, ty: Ty) -> Val {
     };
     match ty {
         Str => {
-            let s = canary(r);
-            one(s.clone(), vec![s.clone()], q(&s))
+            // also text with characters that are structure in a URI (they travel percent-encoded and must arrive as they are)
+            let c = canary(r);
+            let s = if r.chance(1, 3) { format!("{}{}", c, r.pick(&["/x", "/", " y", "%2F", "a+b", "?q", "#f", "&k=v", "/a/b"])) } else { c.clone() };
+            one(s.clone(), vec![c], q(&s))
         }
         Int => {
             let n = num9(r);
@@ -218,7 +220,15 @@ fn gen_val(r: &mut Rng, ty: Ty) -> Val {
         OptUuid => opt(r, Uuid),
         OptTime => opt(r, Time),
         OptDbl => opt(r, Dbl),
-        OptToken => opt(r, Str),
+        OptToken => {
+            // token characters only
+            if r.chance(1, 3) {
+                Val { texts: vec![], canaries: vec![], json: "null".into() }
+            } else {
+                let s = canary(r);
+                one(s.clone(), vec![s.clone()], q(&s))
+            }
+        }
         ListStr | SetStr => {
             let mut items: Vec<String> = (0..r.below(4)).map(|_| canary(r)).collect();
             if ty == SetStr {
@@ -275,6 +285,8 @@ enum Corruption {
     Repeated,
     Unparsable,
     NotText,
+    /// path arguments only: the router hands over a captured value of several segments (`{param:.+}`-style routing)
+    ExtraSegment,
     AuthMissing,
     AuthWrongPrefix,
     AuthBadChars,
@@ -294,9 +306,9 @@ fn corruptions_for(arg: &Arg) -> Vec<Corruption> {
     match arg.loc {
         Loc::Path => {
             if typed(arg.ty) {
-                vec![Unparsable, NotText]
+                vec![Unparsable, NotText, ExtraSegment]
             } else {
-                vec![NotText]
+                vec![NotText, ExtraSegment]
             }
         }
         Loc::Query(_) => {
@@ -357,6 +369,8 @@ struct Rendered {
     bad_params: Vec<&'static str>,
     /// untyped (string) path / query arguments given text that is not valid UTF-8: ("path" | "query", name)
     lossy: Vec<(&'static str, &'static str)>,
+    /// indices (in path-template order) of path arguments whose captured value gets a further raw segment after routing
+    extra_segments: Vec<usize>,
     bad_auth: bool,
     bad_body: bool,
     corruption_sig: String,
@@ -367,7 +381,7 @@ fn render(r: &mut Rng, ep: &Ep, corrupt: bool) -> Rendered {
     let mut path_vals = vec![];
     let mut query = vec![];
     let mut body = vec![];
-    let mut out = Rendered { uri: String::new(), headers: HeaderMap::new(), body: vec![], tainted: vec![], safe_expected: vec![], bad_params: vec![], lossy: vec![], bad_auth: false, bad_body: false, corruption_sig: String::new() };
+    let mut out = Rendered { uri: String::new(), headers: HeaderMap::new(), body: vec![], tainted: vec![], safe_expected: vec![], bad_params: vec![], lossy: vec![], extra_segments: vec![], bad_auth: false, bad_body: false, corruption_sig: String::new() };
     // choose which arguments to corrupt: usually one, sometimes several
     let mut chosen: Vec<(usize, Corruption)> = vec![];
     if corrupt {
@@ -433,6 +447,13 @@ fn render(r: &mut Rng, ep: &Ep, corrupt: bool) -> Rendered {
                             note_taint(&mut out, &[bad.clone()]);
                         }
                         path_vals.push(format!("{}{}", bad, RAW_FF));
+                    }
+                    Some(Corruption::ExtraSegment) => {
+                        // a valid first segment; the second one is appended to the captured value after routing
+                        out.bad_params.push(arg.name);
+                        note_taint(&mut out, &v.canaries);
+                        out.extra_segments.push(path_vals.len());
+                        path_vals.push(v.texts[0].clone());
                     }
                     Some(_) => {
                         out.bad_params.push(arg.name);
@@ -607,7 +628,8 @@ fn deliver(ep: &Ep, rq: &Rendered, chunks: Chunks, is_async: bool) -> Observed {
         let metas: Vec<&(dyn conjure_http::server::Endpoint<Chunks, Vec<u8>> + Sync + Send)> = endpoints.iter().map(|e| &**e).collect();
         let mut routed = route(&metas, &ep.method, uri.path());
         assert_eq!(routed.len(), 1, "route {} {}", ep.name, rq.uri);
-        let r = routed.pop().unwrap();
+        let mut r = routed.pop().unwrap();
+        widen_captures(&mut r, &rq.extra_segments);
         let e = &endpoints[r.index];
         guarded(|| e.handle(mk(ep, &uri, &rq.headers, r.params, chunks), &mut ext).map(|_| ()))
     } else {
@@ -615,7 +637,8 @@ fn deliver(ep: &Ep, rq: &Rendered, chunks: Chunks, is_async: bool) -> Observed {
         let metas: Vec<&conjure_http::server::BoxAsyncEndpoint<'static, ChunkStream, Vec<u8>>> = endpoints.iter().collect();
         let mut routed = route(&metas, &ep.method, uri.path());
         assert_eq!(routed.len(), 1, "route {} {}", ep.name, rq.uri);
-        let r = routed.pop().unwrap();
+        let mut r = routed.pop().unwrap();
+        widen_captures(&mut r, &rq.extra_segments);
         let e = &endpoints[r.index];
         guarded(|| {
             use conjure_http::server::AsyncEndpoint;
@@ -623,6 +646,15 @@ fn deliver(ep: &Ep, rq: &Rendered, chunks: Chunks, is_async: bool) -> Observed {
         })
     };
     Observed { result, calls: rec.take(), safe_params: labrt::loopback::safe_params_vec(&ext) }
+}
+
+/// What a router with multi-segment captures would hand over: a further raw segment after the captured value.
+fn widen_captures(r: &mut labrt::Routed, which: &[usize]) {
+    for i in which {
+        if let Some((name, raw)) = r.captured.get(*i).cloned() {
+            r.params.insert(name, format!("{}/zz", raw));
+        }
+    }
 }
 
 fn cause_chain(e: &Error) -> String {
